@@ -1304,6 +1304,11 @@ def call_ext(it, dotted, args, kwargs):
     if short == 'tee':
         items = it.iterate(args[0])
         return (Iter(items), Iter(items))
+    if short == 'from_iterable' and 'chain' in dotted:
+        out = []
+        for a in it.iterate(args[0]):
+            out.extend(it.iterate(a))
+        return Iter(out)
     if short == 'chain':
         out = []
         for a in args:
